@@ -49,6 +49,7 @@ inductive Ev
   | work (q : Nat)                       -- the worker of queue q handles its next frame
   | join (l : Nat)                       -- Join(): c.pool = append(c.pool, pi)
   | drop (i : Nat)                       -- link loss: c.pool[i] = c.pool[0]; c.pool = c.pool[1:]
+  | redial (i l : Nat)                   -- dialing side: the lost link of slot i is re-dialed (`pi.connection = nc`): new link l
 deriving DecidableEq, Repr
 
 /-- `order` / `orderPeer` of SendPID: the id-derived byte, or 0 when KeepNetworkOrder is off -/
@@ -84,6 +85,7 @@ def step (s : St) : Ev → St
   | .join l => { s with pool := s.pool ++ [l] }
   | .drop i =>
     if i < s.pool.length then { s with pool := (s.pool.set i (s.pool.getD 0 0)).tail } else s
+  | .redial i l => { s with pool := s.pool.set i l }    -- frames still buffered on the old link may yet be read by the peer
 
 def run (s : St) : List Ev → St
   | [] => s
@@ -92,6 +94,7 @@ def run (s : St) : List Ev → St
 def Ev.isPoolChange : Ev → Bool
   | .join _ => true
   | .drop _ => true
+  | .redial _ _ => true
   | _ => false
 
 /-- messages of the pair (src, dst) -/
